@@ -493,6 +493,7 @@ def c09(tier, seed):
             if w >= 2:
                 out.append(spec("verif_c09", "c09.rs", "c09_non_ascii", "c09_non_ascii_%s" % fam, [fam, w], max(w, T(n)) + 2,
                                 tier="quick" if (kind == "s" and n <= 7) or (kind == "d" and n in (3, 7)) else "thorough", n=n, fam=fam, timeout=1800, mem=2 if n >= 7 else 1,
+                                optional=(n >= 8),
                                 covers={"reached": "SATISFIED",
                                         "character straddles the chunk boundary": "SATISFIED" if w >= 32 else "UNSAT"},
                                 what="from_hex_string on %s n=%d: a 2-byte UTF-8 character at a symbolic position in an otherwise ASCII string of the right byte length is Err and never panics (chunk slicing)" % (tname, n)))
@@ -501,7 +502,7 @@ def c09(tier, seed):
             w = hex_width(n)
             tq = "quick" if (n <= 2 and kind == "s") or (n == 2 and kind == "d") else "thorough"
             out.append(spec("verif_c09", "c09.rs", "c09_print_hex", "c09_print_hex_%s" % fam, [fam, w], 70,
-                            tier=tq, n=n, fam=fam, timeout=3000, mem=3, optional=(n >= 4),
+                            tier=tq, n=n, fam=fam, timeout=3000, mem=3, optional=(n >= 3),
                             covers={"reached": "SATISFIED", "letter digit": "SATISFIED" if n >= 2 else "UNSAT"},
                             what="to_hex_string on %s n=%d: length is exactly %d and the digit at a symbolic position is the MSB-first nibble" % (tname, n, w)))
             # c09_roundtrip (parse(print(f)) == f) and c09_print_bin (to_bin_string) are written in c09.rs but not
